@@ -821,7 +821,20 @@ func enumerate(c *run.Ctx, variant int, points, tears map[string]int) []point {
 	}
 	sort.Strings(tsites)
 	for _, s := range tsites {
-		for _, o := range pick(s, tears[s]) {
+		occs := pick(s, tears[s])
+		if strings.HasSuffix(s, "tmp.data") {
+			// the first appends to the write-ahead file carry the contract code records of the first blocks: every one of them
+			seen := map[int]bool{}
+			for _, o := range occs {
+				seen[o] = true
+			}
+			for o := 1; o <= 40 && o <= tears[s]; o++ {
+				if !seen[o] {
+					occs = append(occs, o)
+				}
+			}
+		}
+		for _, o := range occs {
 			all = append(all, point{Plan: variant, Spec: CrashSpec{Site: s, Occ: o, Tear: []int{50, 300, 700, 990}[r.Intn(4)]}})
 		}
 	}
